@@ -52,6 +52,17 @@ pub fn run(ctx: &Ctx, rep: &mut Reporter) {
             rep.count("large_mappings", 1);
             let n = 2_000 + rng.below(2_000);
             pgvcore::ast::huge_group_ast(&mut rng, n)
+        } else if case_idx % 25 == 7 && !ctx.slow() {
+            // class tables larger than any plausible internal staging buffer (tens to hundreds
+            // of 28-byte records), few members each
+            rep.count("mappings_with_many_classes", 1);
+            let mut cfg = GenCfg::default();
+            cfg.name_family = true;
+            cfg.min_blocks = 30 + rng.below(60);
+            cfg.max_blocks = cfg.min_blocks + rng.below(150);
+            cfg.max_items = 1;
+            cfg.long_names = false;
+            Gen::new(&mut rng, cfg).ast()
         } else {
             Gen::new(&mut rng, cfg_for(case_idx, ctx.slow())).ast()
         };
@@ -101,6 +112,7 @@ fn check(text: &[u8], rep: &mut Reporter, case_idx: u64) {
     }
     // every schedule once with a plain sink and once with a sink whose write_vectored gathers
     let schedules: Vec<(Schedule, bool)> = schedules.iter().map(|s| (*s, false)).chain(schedules.iter().map(|s| (*s, true))).collect();
+    let mut followups = 0u64;
     for (sch, vectored) in schedules {
         let mut sink = if vectored { FaultSink::new_vectored(sch) } else { FaultSink::new(sch) };
         let res = cur::write_cache_to(text, &mut sink);
@@ -177,6 +189,21 @@ fn check(text: &[u8], rep: &mut Reporter, case_idx: u64) {
                     // by the statement (its first clause is conditional on success); counted only
                     rep.count("writes_failed_on_a_merely_short_sink", 1);
                 }
+            }
+        }
+        // The sink of one call must not influence the next call: after a failed (and after
+        // every fourth successful) write, the same thread writes the same mapping into a
+        // Vec, which has to receive the canonical bytes.
+        followups += 1;
+        if res.is_err() || followups % 4 == 0 {
+            let again = cur::write_cache(text);
+            rep.count("evaluations", 1);
+            rep.count(if res.is_err() { "writes_following_a_failed_write_on_the_same_thread" } else { "writes_following_a_faulty_but_successful_write" }, 1);
+            if again.as_deref().ok() != Some(&canonical[..]) {
+                let mut d = mk(&sink);
+                d.set("second_write_len", Json::s(format!("{:?}", again.as_ref().map(|v| v.len()))));
+                let after = if res.is_err() { "a failed write" } else { "a write into a faulty sink" };
+                rep.violation(case_idx, "sink", &format!("the write that follows {after} on the same thread does not produce the canonical serialisation ({kind})"), d);
             }
         }
     }
